@@ -12,6 +12,7 @@ import (
 	"context"
 	"encoding/json"
 	"fmt"
+	"hash/fnv"
 	"math/rand"
 	"os"
 	"path/filepath"
@@ -309,10 +310,10 @@ func vNoNorm(x string) string { return x }
 
 func vShort(h hash.SHA256Hash) string { return h.String()[:10] }
 
+// hashName names a document hash by the content it addresses (FNV-1a 64 of the canonical rendering of
+// the document on the document shelf) — the model does the same, so a merged document that is
+// byte-identical to a published one gets the same name on both sides.
 func (o *vObserver) hashName(h hash.SHA256Hash) string {
-	if o.known[h.String()] {
-		return vShort(h)
-	}
 	var d did.Document
 	var err error
 	_ = o.s.db.Read(context.Background(), func(tx stoabs.ReadTx) error {
@@ -322,7 +323,9 @@ func (o *vObserver) hashName(h hash.SHA256Hash) string {
 	if err != nil {
 		return "?" + vShort(h)
 	}
-	return "M:" + vDocString(vRenderDoc(d, vNoNorm))
+	f := fnv.New64a()
+	f.Write([]byte(vDocString(vRenderDoc(d, vNoNorm))))
+	return fmt.Sprintf("H%016x", f.Sum64())
 }
 
 func (o *vObserver) resolve(id did.DID, md *resolver.ResolveMetadata) string {
